@@ -68,6 +68,8 @@ def setup():
     jobs.append(dict(source="cq_run.cpp", name="cq_run"))
     for r in props_conc.RUNNERS_CC:
         jobs.append(dict(source=r["source"], defines=r["defines"], name=r["name"]))
+    for r in props_conc.STRESS_CC + props_conc.STRESS_CQ:
+        jobs.append(dict(source=r["source"], defines=r["defines"], name=r["name"], sanitize="thread"))
     for fn in SETUP_HOOKS:
         jobs += fn()
     build_many(jobs)
